@@ -410,7 +410,9 @@ def random_history(rng):
     h = [["startTestRun"]]
     n = 0
     state = 0
-    tags = ["a", "b", "c", ""]      # "" is a (falsy) tag like any other
+    # "" is a (falsy) tag like any other; so is text UTF-8 cannot encode (an os.fsdecode()d name): tags are compared
+    # and passed on as given
+    tags = ["a", "b", "c", "", "caf\udce9", "caf?"]
     for _ in range(rng.randint(2, 25)):
         r = rng.random()
         if r < 0.3:
